@@ -694,6 +694,15 @@ class Exec(Engine):
         tr = list(getattr(st, 'trail', []))
         a.trail = tr + [f'{s.lineno}T']
         b.trail = tr + [f'{s.lineno}F']
+        # flow-sensitive narrowing of an Optional local: in the branch where `X is not None` holds, X is read as its value
+        t = s.test
+        if (isinstance(t, ast.Compare) and len(t.ops) == 1 and isinstance(t.left, ast.Name) and isinstance(t.ops[0], (ast.Is, ast.IsNot))
+                and isinstance(t.comparators[0], ast.Constant) and t.comparators[0].value is None):
+            nm = t.left.id
+            tgt = b if isinstance(t.ops[0], ast.Is) else a
+            if tgt.has(nm) and tgt.get(nm).t.k == 'opt' and getattr(tgt.get(nm), 'origin', None) is None:
+                full = tgt.get(nm)
+                tgt.set(nm, SV(full.t.args[0], full.z['v']))
         if self.feasible(a):
             outs += self.exec_block(s.body, a)
         if self.feasible(b):
